@@ -5,6 +5,9 @@ import (
 	"context"
 	"errors"
 	"fmt"
+	"github.com/bufbuild/buf/private/bufpkg/bufmodule"
+	"github.com/bufbuild/buf/private/bufpkg/bufmodule/bufmodulestore"
+	"github.com/bufbuild/buf/private/pkg/filelock"
 	"io"
 	"io/fs"
 	"log/slog"
@@ -241,7 +244,25 @@ func c15Ops() []c15Op {
 			return map[string][]byte{"dst/" + p: m[p]}
 		}
 	}
+	// caching: the module store writes files, the v1 side files and the marker through the bucket it is given
+	storeOp := func(tar bool) func(ctx context.Context, src storage.ReadBucket, m map[string][]byte, dst storage.ReadWriteBucket, _ io.Writer) error {
+		return func(ctx context.Context, _ storage.ReadBucket, m map[string][]byte, dst storage.ReadWriteBucket, _ io.Writer) error {
+			spec := c09Spec{Name: "buf.test/acme/c15", Commit: "0195d7a2-7c1f-7000-8000-0000000000c5", Files: map[string]string{},
+				BufYAML: "version: v1\nname: buf.test/acme/c15\n", BufLock: "version: v1\ndeps: []\n"}
+			for p, d := range m {
+				spec.Files[p] = string(d)
+			}
+			var opts []bufmodulestore.ModuleDataStoreOption
+			if tar {
+				opts = append(opts, bufmodulestore.ModuleDataStoreWithTar())
+			}
+			store := bufmodulestore.NewModuleDataStore(c09Logger, dst, filelock.NewNopLocker(), opts...)
+			return store.PutModuleDatas(ctx, []bufmodule.ModuleData{c09Data(ctx, spec)})
+		}
+	}
 	return []c15Op{
+		{name: "ModuleStore.Put(dir)", run: storeOp(false)},
+		{name: "ModuleStore.Put(tar)", run: storeOp(true)},
 		{name: "Copy", expect: identity, run: func(ctx context.Context, src storage.ReadBucket, _ map[string][]byte, dst storage.ReadWriteBucket, _ io.Writer) error {
 			_, err := storage.Copy(ctx, src, dst)
 			return err
@@ -834,7 +855,7 @@ func init() {
 	core.Register(&core.Check{
 		ID:    "C15",
 		Level: "fault_enumeration",
-		Rule: "for each of 19 write operations (Copy/CopyPath/CopyReadObject/PutPath/CopyReader/ForWriteObject ± atomic, Untar, Unzip, Tar, Zip, PutFileSetToBucket, bufconfig Put*FileForPrefix) + the generated-file flush, " +
+		Rule: "for each of 21 write operations (ModuleStore.PutModuleDatas dir/tar layout, Copy/CopyPath/CopyReadObject/PutPath/CopyReader/ForWriteObject ± atomic, Untar, Unzip, Tar, Zip, PutFileSetToBucket, bufconfig Put*FileForPrefix) + the generated-file flush, " +
 			"and each source bucket (0..12 files, empty/small/100 kB contents): a fault-free dry run counts the Put/Write/Close events, then every single position k (error; short write+error) is injected through a wrapper bucket/writer, " +
 			"and on a real disk bucket through the storageos hook points os.write/os.close plus real EISDIR failures; thorough adds all pairs. Atomic-put kill enumeration: a child process overwrites one path with PutWithAtomic and is SIGKILLed at every hit of every hook point while a reader polls; " +
 			"LimitWriteBucket at every byte budget; `buf export` onto a blocked output. System-call part: the built buf binary runs 15 writing commands (build -o binpb/json.gz/txtpb.zst/yaml/stdout, export, format -w/-o dir/-o file, generate to dir/zip/jar, config init, config migrate, convert) under strace, which fails the first write (ENOSPC), second write, close (EIO), open (EMFILE), rename (EIO) or mkdir (EACCES) on each output path in turn; exit status and the files left behind are judged. distinct/non-trivial = distinct (operation, source size, number of fault positions) classes; fault_positions counts distinct (operation, position)",
